@@ -61,6 +61,10 @@ def run(tier, seed, t0):
                     ["--mode", "multi", "--t", 8, "--basebit", 2, "--n_in", 5, "--n_out", 3, "--reps", 50, "--seed", seed],
                     tool="memcheck", timeout=1200))
 
+    for i, j in enumerate(jobs):      # process history: every other native job uses another decomposition first
+        if j.tool is None and i % 2 == 1:
+            j.args = j.args + ["--prelude", "1"]
+
     def post(results, agg):
         viols = []
         # exhaustive mean of a - R(a) per layout must be <= 1 unit in magnitude ("zero on average")
